@@ -311,6 +311,34 @@ func checkC19(w *World, r *Result) {
 	if condSort {
 		return // the pipeline below assumes unconditional passes; the violation above is the verdict
 	}
+	// emission by strings.Join: the separator is written between elements, so "each content followed by a newline"
+	// fails at one end (no final newline) or for the empty list (a lone newline), unless an emptiness test precedes
+	joined := false
+	ast.Inspect(fi.Decl.Body, func(x ast.Node) bool {
+		ret, ok := x.(*ast.ReturnStmt)
+		if !ok || len(ret.Results) != 1 {
+			return true
+		}
+		ast.Inspect(ret.Results[0], func(y ast.Node) bool {
+			if call, ok := y.(*ast.CallExpr); ok && fullName(calleeOf(info, call)) == "strings.Join" {
+				joined = true
+				guarded := false
+				for _, c := range pathConds(fi.Decl, ret) {
+					if c.expr != nil && strings.Contains(es(c.expr), "len(") {
+						guarded = true
+					}
+				}
+				r.cond(guarded, "PTH-C19a", name, "return "+es(ret.Results[0]), w.Pos(ret.Pos()),
+					"the joined form is only used for a non-empty list",
+					"the contents are joined with a separator instead of each being followed by its newline: for an empty list the result is not empty (a lone newline), or the last content has no newline")
+			}
+			return true
+		})
+		return true
+	})
+	if joined {
+		return
+	}
 	for _, st := range fi.Decl.Body.List {
 		switch s := st.(type) {
 		case *ast.ExprStmt:
